@@ -49,6 +49,7 @@ DELEGATES = {
     'it.codicefiscale': [('it.iva', lambda x: _dig(x, (11,)), True)],
     'fi.ytunnus': [('fi.alv', lambda x: _dig(x, (8,)), True)],
 }
+DELEGATE_PREFIX = {'sk.dph': ('SK',), 'cz.dic': ('CZ',), 'ro.cf': ('RO', 'ro'), 'bg.vat': ('BG',), 'fi.ytunnus': ()}
 NATIONAL_IBAN = ('be', 'es', 'no', 'me')
 # wrapper -> (wrapped, projection of the wrapper's result that the wrapped validator must accept,
 #             spelling of a valid wrapped number that the wrapper must accept)
@@ -244,15 +245,19 @@ def work(item):
                     p_ = proj(x)
                     if p_ is None:
                         continue
-                    n += 1
                     co = outcome(cm.validate, p_)
-                    wo = outcome(w.validate, x)
-                    if acc(co):
-                        nt += 1
-                        if not acc(wo) or wo[1] != co[1]:
-                            viol('superset-rejects', key, x, '%s accepts %r (%r) but %s gives %r' % (cn, p_, co[1], key, wo[1:3]), cn + ':' + dev)
-                    elif exact and acc(wo):
-                        viol('wrapper-accepts-more', key, x, '%s accepts %r (%r) but %s gives %r' % (key, x, wo[1], cn, co[1:3]), cn + ':' + dev)
+                    # the wrapper is asked with the number as is and, for VAT modules, under its country prefix
+                    for pre in ('',) + DELEGATE_PREFIX.get(key, ()):
+                        n += 1
+                        wo = outcome(w.validate, pre + x)
+                        if acc(co):
+                            nt += 1
+                            if not acc(wo) or wo[1] not in (co[1], pre.upper() + co[1]):
+                                viol('superset-rejects', key, pre + x, '%s accepts %r (%r) but %s gives %r for %r' % (
+                                    cn, p_, co[1], key, wo[1:3], pre + x), cn + ':' + dev + (':' + pre if pre else ''))
+                        elif exact and acc(wo):
+                            viol('wrapper-accepts-more', key, pre + x, '%s accepts %r (%r) but %s gives %r' % (
+                                key, pre + x, wo[1], cn, co[1:3]), cn + ':' + dev + (':' + pre if pre else ''))
     elif kind == 'iban':
         iban = mod('iban')
         if key == 'generic':
